@@ -688,6 +688,9 @@ func main() {
 		}
 		r := hx.Rand(o.Seed, 1101)
 		k := 0
+		for i, s := range hs.Always() {
+			hx.Emit(searchCase(fmt.Sprintf("pinned:%d", i), s, i%2 == 0, false))
+		}
 		for i, s := range corpus {
 			if parts > 1 && uint64(i)%uint64(parts) != o.Seed%uint64(parts) {
 				continue
